@@ -147,7 +147,7 @@ class n0list(n0list_):
                 for i, next_parent_node in enumerate(parent_node):
                     if isinstance(next_parent_node, dict):
                         cur_parent_node, cur_node_name_index, cur_value, cur_found_xpath_str, \
-                            cur_not_found_xpath_list = n0dict._find(next_parent_node, xpath_list[1:], next_parent_node, return_lists,  xpath_found_str + f"[{i}]")
+                            cur_not_found_xpath_list = n0dict._find(next_parent_node, xpath_list[1:], next_parent_node, return_lists, "/")
                     elif isinstance(next_parent_node, (list, tuple)):
                         cur_parent_node, cur_node_name_index, cur_value, cur_found_xpath_str, \
                             cur_not_found_xpath_list = self._find(xpath_list[1:], next_parent_node, return_lists, xpath_found_str + f"[{i}]")
@@ -194,7 +194,7 @@ class n0list(n0list_):
                     #*******************************
                     next_parent_node =  parent_node[node_index_int]
                     if isinstance(next_parent_node, dict):
-                        return n0dict._find(next_parent_node, xpath_list[1:], next_parent_node, return_lists, f"{xpath_found_str}[{node_index_int}]")
+                        return n0dict._find(next_parent_node, xpath_list[1:], next_parent_node, return_lists, "/")
                     if isinstance(next_parent_node, (list, tuple)):
                         return self._find(xpath_list[1:], next_parent_node, return_lists, f"{xpath_found_str}[{node_index_int}]")
                     else:
